@@ -12,7 +12,18 @@ func init() {
 // elemTypes is the element/key type alphabet of the list helpers.
 func elemTypes(tier string) ([]*Ty, string) {
 	if tier == "thorough" {
-		return typesUpTo(1), "element types: every type of constructor depth <= 1 over the full basic alphabet"
+		ts := typesUpTo(1)
+		seen := map[string]bool{}
+		for _, t := range ts {
+			seen[t.Expr] = true
+		}
+		for _, t := range depth2Selection() {
+			if !seen[t.Expr] {
+				seen[t.Expr] = true
+				ts = append(ts, t)
+			}
+		}
+		return ts, "element types: every type of constructor depth <= 1 over the full basic alphabet plus the depth-2 selection"
 	}
 	ts := leaves(allBasics)
 	st := structTys()
@@ -70,8 +81,8 @@ func listCase(prop, id string, t *Ty) *e1Case {
 }
 
 var listRules = map[string]string{
-	"C13": "state = one input (list of length 0..3 incl. nil over a 4-value element pool with duplicates built at distinct addresses and nil elements; every subset of the pool as a map; every pair for the two-value forms); transition = one call of generated Sort/Keys/Min/Max checked for permutation+sortedness (derived Compare, natural < for basic kinds), keys-exactly-once, extremal-element; non-trivial = inputs with at least two elements",
-	"C14": "state = one input (list of length 0..3, for Unique 0..5, incl. nil; every pair of lists for Union/Intersect; every pair of key subsets for the map forms; list x predicate of a 12-member family for Filter/TakeWhile/All/Any); transition = one call of the generated helper compared with the list/set reference model under derived Equal, predicate call log compared; non-trivial = inputs where the answer is not vacuous (item present, duplicates present, both lists non-empty, element-dependent predicate)",
+	"C13": "state = one input (list of length 0..3 [0..4 thorough] incl. nil over a 4-value element pool with duplicates built at distinct addresses and nil elements; every subset of the pool as a map; every pair for the two-value forms); transition = one call of generated Sort/Keys/Min/Max checked for permutation+sortedness (derived Compare, natural < for basic kinds), keys-exactly-once, extremal-element; non-trivial = inputs with at least two elements",
+	"C14": "state = one input (list of length 0..3, for Unique 0..5 [0..4 / 0..6 thorough], incl. nil; every pair of lists for Union/Intersect; every pair of key subsets for the map forms; list x predicate of a 12-member family for Filter/TakeWhile/All/Any); transition = one call of the generated helper compared with the list/set reference model under derived Equal, predicate call log compared; non-trivial = inputs where the answer is not vacuous (item present, duplicates present, both lists non-empty, element-dependent predicate)",
 }
 
 func checkList(prop, tier string) {
@@ -87,6 +98,9 @@ func checkList(prop, tier string) {
 		cases = append(cases, listCase(prop, fmt.Sprintf("c%d", i+1), t))
 	}
 	env := []string{"VERIF_ELEMK=3", "VERIF_FUEL=3", "VERIF_LISTLEN=3", "VERIF_ULISTLEN=5"}
+	if tier == "thorough" {
+		env = []string{"VERIF_ELEMK=3", "VERIF_FUEL=3", "VERIF_LISTLEN=4", "VERIF_ULISTLEN=6"}
+	}
 	res := runE1(cases, prop, 24, env, 1)
 	aggregateE1(rep, prop, cases, res, bound, listRules[prop])
 	rep.Finish()
